@@ -175,33 +175,37 @@ func sortPos(ps []token.Pos) {
 	}
 }
 
-// C02.f — visited sets guard recursion only (stack discipline).
+// C02.f — each record/union instance is handled once per traversal, and correctly.
 //
-// The FType traversals reach a union's cases through a global table, so a
-// recursive union would loop; a mutable "visited" set cuts the cycle.  If the
-// entry outlives the guarded subtree the guard also skips *sibling* occurrences
-// of the same union (Opt<A> * Opt<B>): their variables are neither substituted
-// nor collected, and inference variables leak into the emitted signature.
-// Decided on the un-normalised blocks (statement order matters):
-//   every `SSetPut(S, K)` statement is (1) in the else-branch of `if SSetHasKey(S, K)`,
-//   (2) followed in the same block by `SSetRemove(S, K)` with no branching statement between,
-//   (3) and the key identifies the *instance* (uniToKey / rtToKey of the arm's payload: name and
-//       type arguments), because the cases of Opt<Opt<T>> contain another instance of Opt
-//       that is not a recursive occurrence.
+// The FType traversals reach a union's cases and a record's fields through a global table, so a
+// recursive type would loop; a per-traversal table cuts the cycle.  Two ways to get it wrong were
+// both present in the unchanged tree (§4 #19, #20): a key that does not identify the *instance*
+// (Opt<Opt<T>>: the inner instance is taken for a recursive occurrence), and a hit that returns the
+// untranslated input for a *sibling* occurrence (Opt<A> * Opt<B>).  Decided:
+//   (1) every key handed to SSetHasKey/SSetPut/TMemoTryFind/TMemoPut is uniToKey / rtToKey of the
+//       arm's payload (name and type arguments; closed forms pinned);
+//   (2) a *visited set* (hit ⇒ skip) is used only where skipping a repeated instance loses nothing:
+//       the hit branch yields the empty list (the results are concatenated and deduplicated later);
+//   (3) a *memo* (TMemo) follows the placeholder discipline, read off the un-normalised blocks:
+//       the hit branch returns the looked-up value; the miss branch first stores the traversal's own
+//       input under the key (a recursive occurrence gets the original type and ends the recursion),
+//       and before returning stores the value it returns (a sibling occurrence gets the translation).
 var guardPins = map[string]string{
-	"SSetHasKey": "(#1(dict.TryFind(p0.Dict, p1)) && #0(dict.TryFind(p0.Dict, p1)))",
-	"SSetPut":    "seq[dict.Add(p0.Dict, p1, true)]",
-	"SSetRemove": "seq[dict.Add(p0.Dict, p1, false)]",
-	"NewSSet":    "SSet{Dict: dict.New()}",
-	"uniToKey":   "encodedKey(p0.Name, p0.Targs)",
-	"rtToKey":    "encodedKey(p0.Name, p0.Targs)",
-	"encodedKey": `frt.SInterP("%s_%s", p0, strings.Concat("_", slice.Map(FTypeToGo, p1)))`,
+	"SSetHasKey":   "#1(dict.TryFind(p0.Dict, p1))",
+	"SSetPut":      "seq[dict.Add(p0.Dict, p1, true)]",
+	"NewSSet":      "SSet{Dict: dict.New()}",
+	"NewTMemo":     "TMemo{Dict: dict.New()}",
+	"TMemoTryFind": "dict.TryFind(p0.Dict, p1)",
+	"TMemoPut":     "seq[dict.Add(p0.Dict, p1, p2)]",
+	"uniToKey":     "encodedKey(p0.Name, p0.Targs)",
+	"rtToKey":      "encodedKey(p0.Name, p0.Targs)",
+	"encodedKey":   `frt.SInterP("%s_%s", p0, strings.Concat("_", slice.Map(FTypeToGo, p1)))`,
 }
 
 func checkGuardDiscipline(c *Ctx, f *FC) {
 	r := c.R
 	for _, name := range sortedKeys(guardPins) {
-		c.expectNF(f, "C02.f", name, []string{guardPins[name]}, "closed form of the visited-set primitive")
+		c.expectNF(f, "C02.f", name, []string{guardPins[name]}, "closed form of the visited-set / memo primitive")
 	}
 	callTo := func(t ir.Term, name string) *ir.App {
 		app, ok := isCallTo(t, f.Path+"."+name)
@@ -210,79 +214,21 @@ func checkGuardDiscipline(c *Ctx, f *FC) {
 		}
 		return app
 	}
+	prims := []string{"SSetHasKey", "SSetPut", "TMemoTryFind", "TMemoPut"}
 	sites := 0
 	for _, fn := range f.Prog.Funcs {
 		fn := fn
+		if _, isPrim := guardPins[fn.Name]; isPrim {
+			continue
+		}
 		pos := c.Pos(f.M.Fset, fn.Decl.Pos())
-		// the guards: if SSetHasKey(S,K) then … else <block>
-		guardOf := map[*ir.Block]string{}
-		ir.WalkFunc(fn, func(t ir.Term) bool {
-			if iff, ok := t.(*ir.If); ok && iff.Else != nil {
-				if app := callTo(iff.Cond, "SSetHasKey"); app != nil && len(app.Args) == 2 {
-					guardOf[iff.Else] = ir.String(f.Path, app.Args[0]) + ", " + ir.String(f.Path, app.Args[1])
-				}
-			}
-			return true
-		})
-		n := 0
-		nested := 0
+		nf := f.N.Func(fn)
+		// (1) keys, on the normal form (the key is inlined there)
 		keyN := map[string]int{}
-		ir.WalkFunc(fn, func(t ir.Term) bool {
-			if callTo(t, "SSetPut") != nil {
-				nested++
-			}
-			return true
-		})
-		ir.EachBlock(fn, func(b *ir.Block) {
-			for i, s := range b.Stmts {
-				do, ok := s.(*ir.Do)
-				if !ok {
-					continue
-				}
-				put := callTo(do.X, "SSetPut")
-				if put == nil || len(put.Args) != 2 {
-					continue
-				}
-				n++
-				sites++
-				cons := fmt.Sprintf("SSetPut#%d", n)
-				key := ir.String(f.Path, put.Args[0]) + ", " + ir.String(f.Path, put.Args[1])
-				var problems []string
-				if g, ok := guardOf[b]; !ok || g != key {
-					problems = append(problems, "the insertion is not the first thing done in the else-branch of `if SSetHasKey("+key+")`")
-				}
-				j := -1
-				for k := i + 1; k < len(b.Stmts); k++ {
-					if d2, ok := b.Stmts[k].(*ir.Do); ok {
-						if rm := callTo(d2.X, "SSetRemove"); rm != nil && len(rm.Args) == 2 && ir.String(f.Path, rm.Args[0])+", "+ir.String(f.Path, rm.Args[1]) == key {
-							j = k
-							break
-						}
-					}
-				}
-				if j < 0 {
-					problems = append(problems, "no SSetRemove("+key+") follows in the same block: the entry outlives the guarded subtree, so a later sibling occurrence of the same name (Opt<A> * Opt<B>) is skipped — its type variables are neither substituted nor collected")
-				} else {
-					for k := i + 1; k < j; k++ {
-						switch b.Stmts[k].(type) {
-						case *ir.Let, *ir.Do:
-						default:
-							problems = append(problems, "a branching statement lies between the insertion and the removal")
-						}
-					}
-				}
-				if len(problems) == 0 {
-					r.OK("C02.f", fn.Name, cons, pos, "inserted under its own membership test and removed when the guarded subtree is done ("+key+")")
-				} else {
-					r.Bad("C02.f", fn.Name, cons, pos, strings.Join(problems, "; "))
-				}
-			}
-		})
-		// (3) on the normal form, where the key is inlined
-		ir.Walk(f.N.Func(fn), func(t ir.Term) bool {
-			for _, prim := range []string{"SSetHasKey", "SSetPut", "SSetRemove"} {
+		ir.Walk(nf, func(t ir.Term) bool {
+			for _, prim := range prims {
 				app := callTo(t, prim)
-				if app == nil || len(app.Args) != 2 {
+				if app == nil || len(app.Args) < 2 {
 					continue
 				}
 				k := ir.String(f.Path, app.Args[1])
@@ -295,18 +241,107 @@ func checkGuardDiscipline(c *Ctx, f *FC) {
 					}
 				}
 				keyN[prim]++
-				cons := fmt.Sprintf("%s-key#%d", prim, keyN[prim])
-				r.Check(inst, "C02.f", fn.Name, cons, pos, "keyed by the instance: "+k,
-					"the visited set is keyed by "+k+", which does not identify the instance (name and type arguments): another instance of the same generic type inside the guarded subtree (the inner Opt<T> of Opt<Opt<T>>) is taken for a recursive occurrence and skipped")
+				sites++
+				r.Check(inst, "C02.f", fn.Name, sprintf("%s-key#%d", prim, keyN[prim]), pos, "keyed by the instance: "+k,
+					"the table is keyed by "+k+", which does not identify the instance (name and type arguments): another instance of the same generic type inside the guarded subtree (the inner Opt<T> of Opt<Opt<T>>) is taken for a recursive occurrence and skipped")
 			}
 			return true
 		})
-		if nested > n {
-			r.Undecided("C02.f", fn.Name, "SSetPut-in-expression", pos, sprintf("%d SSetPut call(s) are not plain statements of a block; the discipline cannot be read off", nested-n))
+		// (2) visited sets: hit => empty list
+		nv := 0
+		ir.Walk(nf, func(t ir.Term) bool {
+			iff, ok := t.(*ir.If)
+			if !ok || callTo(iff.Cond, "SSetHasKey") == nil {
+				return true
+			}
+			nv++
+			hit := ir.String(f.Path, iff.Then.Ret)
+			r.Check(hit == "slice.New()" || hit == "[]", "C02.f", fn.Name, sprintf("visited-hit#%d", nv), pos,
+				"a repeated instance contributes the empty list: skipping it loses nothing (the results are concatenated and deduplicated)",
+				"on a repeated instance the traversal yields "+short(hit, 80)+" instead of the neutral element: a visited set that is never cleared may only be used where skipping loses nothing — for a translation, a sibling occurrence (Opt<A> * Opt<B>) would come back untranslated")
+			return true
+		})
+		// (3) memo discipline on the un-normalised blocks
+		nm := 0
+		ir.EachBlock(fn, func(b *ir.Block) {
+			// find `a, ok := frt.Destr2(TMemoTryFind(M, K))` followed by an if on ok
+			for i, st := range b.Stmts {
+				let, ok := st.(*ir.Let)
+				if !ok || let.Mode != ir.LetDestr || len(let.Vars) != 2 || let.Vars[0] == nil || let.Vars[1] == nil {
+					continue
+				}
+				look := callTo(let.Val, "TMemoTryFind")
+				if look == nil || len(look.Args) != 2 {
+					continue
+				}
+				nm++
+				cons := sprintf("memo#%d", nm)
+				mk := ir.String(f.Path, look.Args[0]) + ", " + ir.String(f.Path, look.Args[1])
+				var problems []string
+				// the conditional on ok is the rest of the block
+				var iff *ir.If
+				rest := b.Stmts[i+1:]
+				if len(rest) == 0 {
+					iff, _ = b.Ret.(*ir.If)
+				}
+				if iff == nil || iff.Else == nil {
+					r.Undecided("C02.f", fn.Name, cons, pos, "the memo lookup is not followed directly by `if ok then … else …` as the block's result")
+					continue
+				}
+				if lc, ok := iff.Cond.(*ir.Local); !ok || lc.Obj != let.Vars[1] {
+					problems = append(problems, "the branch is not taken on the lookup's ok flag")
+				}
+				if lc, ok := iff.Then.Ret.(*ir.Local); !ok || lc.Obj != let.Vars[0] || len(iff.Then.Stmts) != 0 {
+					problems = append(problems, "the hit branch does not return the looked-up value (a sibling occurrence of a finished instance must get its translation)")
+				}
+				eb := iff.Else
+				// first statement: TMemoPut(M, K, <traversal input>)
+				first := (*ir.App)(nil)
+				if len(eb.Stmts) > 0 {
+					if d, ok := eb.Stmts[0].(*ir.Do); ok {
+						first = callTo(d.X, "TMemoPut")
+					}
+				}
+				if first == nil || len(first.Args) != 3 || ir.String(f.Path, first.Args[0])+", "+ir.String(f.Path, first.Args[1]) != mk {
+					problems = append(problems, "the miss branch does not start by storing a placeholder under the same key (a recursive occurrence would not end the recursion)")
+				} else if _, isParam := first.Args[2].(*ir.Param); !isParam {
+					problems = append(problems, "the placeholder is not the traversal's own input")
+				}
+				// last: TMemoPut(M, K, res) with res the returned local
+				n := len(eb.Stmts)
+				last := (*ir.App)(nil)
+				if n >= 2 {
+					if d, ok := eb.Stmts[n-1].(*ir.Do); ok {
+						last = callTo(d.X, "TMemoPut")
+					}
+				}
+				retL, _ := eb.Ret.(*ir.Local)
+				if last == nil || len(last.Args) != 3 || ir.String(f.Path, last.Args[0])+", "+ir.String(f.Path, last.Args[1]) != mk {
+					problems = append(problems, "the miss branch does not store its result under the same key before returning (a later sibling occurrence would get the untranslated placeholder)")
+				} else if lc, ok := last.Args[2].(*ir.Local); !ok || retL == nil || lc.Obj != retL.Obj {
+					problems = append(problems, "the value stored last is not the value returned")
+				}
+				if len(problems) == 0 {
+					r.OK("C02.f", fn.Name, cons, pos, "placeholder discipline: hit returns the stored value; miss stores the input first and the result last ("+mk+")")
+				} else {
+					r.Bad("C02.f", fn.Name, cons, pos, strings.Join(problems, "; "))
+				}
+			}
+		})
+		// every TMemoTryFind of the function was seen in that shape
+		total := 0
+		ir.WalkFunc(fn, func(t ir.Term) bool {
+			if callTo(t, "TMemoTryFind") != nil {
+				total++
+			}
+			return true
+		})
+		if total > nm {
+			r.Undecided("C02.f", fn.Name, "memo-lookup-shape", pos, sprintf("%d memo lookup(s) are not of the form `let (v, ok) = TMemoTryFind m k` heading a block", total-nm))
 		}
 	}
-	r.Unit("visited_set_insertions", sites)
-	if sites < 2 {
-		r.Undecided("C02.f", "-", "sites", "fc", sprintf("%d visited-set insertions found; the union arms of collectTVarFTypeWithSet and transTVFTypeWithSet (2) were confirmed by hand", sites))
+	r.Unit("guard_and_memo_key_sites", sites)
+	if sites < 8 {
+		r.Undecided("C02.f", "-", "sites", "fc", sprintf("%d visited-set/memo operations found; the record and union arms of collectTVarFTypeWithSet and transTVFTypeWithSet (8+) were confirmed by hand", sites))
 	}
 }
